@@ -32,11 +32,11 @@ type dispCtx struct {
 	ctxParam   *ssa.Parameter
 	replay     *ssa.Parameter
 	embedded   *ssa.Parameter
-	gate       *ssa.Call // AuthorizeConnection, or the dispatcher's call of a helper that wraps it
+	gate       *ssa.Call     // AuthorizeConnection, or the dispatcher's call of a helper that wraps it
 	gateFn     *ssa.Function // the ACL authorization method itself
 	gateArgs   []ssa.Value   // its arguments (recv, conn, cmd, command, subCommand) as values of the dispatcher
-	decode     *ssa.Call // internal.Decode(message)
-	paramsCall *ssa.Call // getHandlerFuncParams
+	decode     *ssa.Call     // internal.Decode(message)
+	paramsCall *ssa.Call     // getHandlerFuncParams
 	logCalls   []*ssa.Call
 	reach      map[*ssa.BasicBlock]bool
 }
@@ -408,14 +408,14 @@ func gateEdgeFacts(b *ssa.BasicBlock, si int, gate *ssa.Call, conn, embedded ssa
 		return OK
 	}
 	if embedded != nil {
-		if iff.Cond == embedded && si == 0 {
+		if world.CondValue(iff) == embedded && si == 0 {
 			return OK
 		}
-		if u, ok := iff.Cond.(*ssa.UnOp); ok && u.Op == token.NOT && u.X == embedded && si == 1 {
+		if u, ok := world.CondValue(iff).(*ssa.UnOp); ok && u.Op == token.NOT && u.X == embedded && si == 1 {
 			return OK
 		}
 	}
-	if x, eq, ok := world.NilTest(iff.Cond); ok {
+	if x, eq, ok := world.NilTest(world.CondValue(iff)); ok {
 		if (conn != nil && x == conn) || isAclLoad(x) {
 			if (eq && si == 0) || (!eq && si == 1) {
 				return OK
@@ -695,14 +695,14 @@ func ruleD2(w *world.World, r *report.RuleResult) {
 		if world.ErrNilEdge(b, isHV) == si {
 			f |= HOK
 		}
-		if iff.Cond == ssa.Value(d.replay) {
+		if world.CondValue(iff) == ssa.Value(d.replay) {
 			if si == 0 {
 				f |= DONE
 			} else {
 				f |= NR
 			}
 		}
-		if isWriteTest(iff.Cond) {
+		if isWriteTest(world.CondValue(iff)) {
 			if si == 1 {
 				f |= DONE
 			} else {
@@ -712,7 +712,7 @@ func ruleD2(w *world.World, r *report.RuleResult) {
 		// The AOF is a standalone facility: when the engine is created only on the not-in-cluster
 		// branch of the constructor, a handler run on an in-cluster edge has no log to append to.
 		if aofStandalone {
-			c, neg := iff.Cond, false
+			c, neg := world.CondValue(iff), false
 			if u, ok := c.(*ssa.UnOp); ok && u.Op == token.NOT {
 				c, neg = u.X, true
 			}
@@ -913,7 +913,7 @@ func exprString(v ssa.Value) string {
 	switch x := v.(type) {
 	case *ssa.Field:
 		st := x.X.Type().Underlying().(*types.Struct)
-		return exprString(x.X) + "." + st.Field(x.Field).Name()
+		return exprString(x.X) + "." + world.CanonField(st.Field(x.Field))
 	case *ssa.FieldAddr:
 		return exprString(x.X) + "." + world.FieldName(x)
 	case *ssa.UnOp:
@@ -1081,7 +1081,7 @@ func ruleD4(w *world.World, r *report.RuleResult) {
 				}
 			case *ssa.Field:
 				st := x.X.Type().Underlying().(*types.Struct)
-				if st.Field(x.Field).Name() == "Sync" {
+				if world.CanonField(st.Field(x.Field)) == "Sync" {
 					ok = true
 					return true
 				}
@@ -1103,7 +1103,7 @@ func ruleD4(w *world.World, r *report.RuleResult) {
 		if iff == nil {
 			return 0
 		}
-		c := iff.Cond
+		c := world.CondValue(iff)
 		neg := false
 		if u, ok := c.(*ssa.UnOp); ok && u.Op == token.NOT {
 			c, neg = u.X, true
@@ -1452,7 +1452,6 @@ func ruleD8(w *world.World, r *report.RuleResult) {
 	}
 }
 
-
 // isClusterTest: v is a call of the module's in-cluster predicate (SugarDB.isInCluster).
 func isClusterTest(v ssa.Value) bool {
 	c, ok := v.(*ssa.Call)
@@ -1492,7 +1491,7 @@ func aofEngineOnlyStandalone(w *world.World) bool {
 			if iff == nil {
 				return 0
 			}
-			c, neg := iff.Cond, false
+			c, neg := world.CondValue(iff), false
 			if u, ok := c.(*ssa.UnOp); ok && u.Op == token.NOT {
 				c, neg = u.X, true
 			}
